@@ -114,9 +114,49 @@ func (i *Interp) spawn(fr *frame, pos token.Pos, fn value, args []value) {
 		}()
 		i.call(nil, pos, fn, args)
 	}()
+	if i.lateBudget > 0 && i.lateVictim == nil && !i.symSched {
+		// late-goroutine mode: this goroutine is the one that is held back, or not
+		if i.chooseIndex(2) == 1 {
+			i.lateVictim, i.lateLeft = t, i.lateBudget
+			i.lateBudget = 0
+		}
+	}
 	if i.symSched || i.preemptBudget > 0 {
 		i.yield(nil)
 	}
+}
+
+// passOver implements late-goroutine mode: next is the thread the scheduler picked among
+// cands; if it is the goroutine being held back and somebody else can run, it is either
+// released or passed over (a decision), at most lateLeft times.
+func (i *Interp) passOver(cur, next *thread, cands []*thread) *thread {
+	v := i.lateVictim
+	if v == nil || next != v {
+		return next
+	}
+	var others []*thread
+	for _, t := range cands {
+		if t != v {
+			others = append(others, t)
+		}
+	}
+	if len(others) == 0 || i.lateLeft == 0 {
+		i.lateVictim = nil // nobody else can run (or the budget is used up): released
+		return next
+	}
+	if i.chooseIndex(2) == 0 {
+		i.lateVictim = nil
+		return next
+	}
+	i.lateLeft--
+	alt := others[0]
+	for _, t := range others {
+		if t.id > v.id {
+			alt = t
+			break
+		}
+	}
+	return alt
 }
 
 func (i *Interp) runnable() []*thread {
@@ -183,7 +223,16 @@ func (i *Interp) yield(cond func() bool) {
 			}
 		}
 	}
+	if i.lateVictim != nil {
+		next = i.passOver(cur, next, cands)
+	}
 	if next == cur {
+		if cond != nil && !cond() {
+			// (late-goroutine mode) the only alternative was passed over and the poller's
+			// condition does not hold yet: time passes, it polls again
+			cur.blocked = nil
+			return
+		}
 		cur.blocked = nil
 		return
 	}
@@ -222,6 +271,9 @@ func (i *Interp) threadExit(t *thread) {
 		return
 	}
 	next := cands[0]
+	if i.lateVictim == next && len(cands) > 1 {
+		next = cands[1] // the goroutine held back stays held back (no decision at thread exit)
+	}
 	if i.symSched && len(cands) > 1 {
 		// the decision is taken in the context of the exiting thread
 		func() {
